@@ -35,7 +35,7 @@ ASSUMPTIONS = [
   "sequence AND went through the same set of wrapper kinds",
 ]
 
-POOLS = ["list123", "empty", "periodic12", "const4", "gen5", "chain", "periodic123"]
+POOLS = ["list123", "empty", "periodic12", "const4", "gen5", "chain", "periodic123", "hetero"]
 
 
 def make_pool(name):
@@ -44,6 +44,10 @@ def make_pool(name):
   if name == "periodic12": return Stream(1, 2), Seq((), (1, 2))
   if name == "const4": return Stream(4), Seq((), (4,))
   if name == "periodic123": return Stream(1, 2, 3), Seq((), (1, 2, 3))
+  if name == "hetero":
+    # opaque items incl. None and other falsy values (a Stream never inspects its items)
+    items = (None, 0, "", 1.5, None, (), "x")
+    return Stream(list(items)), Seq(items, None)
   if name == "gen5": return Stream(x for x in [1, 2, 3, 4, 5]), Seq((1, 2, 3, 4, 5), None)
   if name == "chain": return Stream([1, 2], (3,)), Seq((1, 2, 3), None)
   raise ValueError(name)
@@ -131,6 +135,7 @@ HUB_LETTERS = [("use",), ("hpeek", None), ("hpeek", 0), ("hpeek", 2), ("hpeek", 
 class World(object):
   """Real handles and model handles side by side."""
   def __init__(self, pool):
+    self.pool = pool
     s, m = make_pool(pool)
     self.real = {0: s}
     self.model = {0: ["s", m, frozenset()]}    # kind, Seq | (Seq, left), signature
@@ -158,6 +163,8 @@ class World(object):
         for l in stream_letters(val):
           if l[0] in ("copy", "tee", "thub") and len(self.model) >= 4:
             continue
+          if self.pool == "hetero" and (l[0] in ("map", "filter") or l == ("takec", "set")):
+            continue
           out.append([h] + list(l))
       else:
         seq, left = val
@@ -165,6 +172,8 @@ class World(object):
           if l[0] == "hfilter" and not (seq.finite or any(ODD(v) for v in seq.cycle)):
             continue
           if l == ("hpeek", "inf") and not seq.finite:
+            continue
+          if self.pool == "hetero" and l[0] in ("hmap", "hfilter"):
             continue
           if len(self.model) >= 5 and l[0] != "htake" and not l[0].startswith("hpeek"):
             continue
@@ -327,14 +336,15 @@ class World(object):
         self.new(Stream([]), "s", seq, sig)
       return "new", obs
     # the remaining letters consume one use
-    fns = {"use": (lambda: Stream(t), seq),
-           "hmap": (lambda: t.map(ADD10), seq.map(ADD10)),
-           "hfilter": (lambda: t.filter(ODD), seq.filter(ODD)),
-           "hskip": (lambda: t.skip(arg), seq.take(1)[1]),
-           "hlimit": (lambda: t.limit(arg), Seq(seq.take(1)[0], None)),
+    fns = {"use": (lambda: Stream(t), lambda: seq),
+           "hmap": (lambda: t.map(ADD10), lambda: seq.map(ADD10)),
+           "hfilter": (lambda: t.filter(ODD), lambda: seq.filter(ODD)),
+           "hskip": (lambda: t.skip(arg), lambda: seq.take(1)[1]),
+           "hlimit": (lambda: t.limit(arg), lambda: Seq(seq.take(1)[0], None)),
            "happend": (lambda: t.append([9]),
-                       Seq(seq.items + (9,), None) if seq.finite else seq)}
+                       lambda: Seq(seq.items + (9,), None) if seq.finite else seq)}
     fn, nseq = fns[name]
+    nseq = nseq()
     if left == 0:
       return "IndexError", self._obs(fn)
     M[h][1] = (seq, left - 1)
@@ -397,7 +407,9 @@ def jsonable(v):
   if isinstance(v, (set, frozenset)):
     return {"set": sorted(v)}
   if isinstance(v, (tuple, deque)):
-    return {type(v).__name__: list(v)}
+    return {type(v).__name__: [jsonable(x) for x in v]}
+  if isinstance(v, list):
+    return [jsonable(x) for x in v]
   return v
 
 
